@@ -10,19 +10,6 @@ from vlib import Broken
 INVS = "NonNegative Conservation VotesAtBoundary SupplyEqualsEquity NothingForbiddenIncluded"
 
 
-def _strip_locations(pattern):
-    """TLC prints '<Action(args) line a, col b to line c, col d of module M>' above every simulated state; the
-    harness' loader cuts at the LAST ' line ', which leaves a tail when the action spans several lines."""
-    import glob, re
-    rx = re.compile(r"^(\\\* <.*?) line \d+, col \d+ to line \d+, col \d+ of module \w+>\s*$", re.M)
-    for f in glob.glob(pattern):
-        txt = open(f).read()
-        new = rx.sub(lambda m: m.group(1) + " line 0>", txt)
-        if new != txt:
-            with open(f, "w") as fh:
-                fh.write(new)
-
-
 def run(ctx, check, exhaustive, negatives, sim, sim_quick, sim_thorough, depth):
     """exhaustive: cfg name per tier; negatives: [(cfg, expected violated invariant/property names)]"""
     ctx.build()
@@ -39,7 +26,7 @@ def run(ctx, check, exhaustive, negatives, sim, sim_quick, sim_thorough, depth):
             raise Broken("negative control %s: expected a violation of %s, TLC reported %s\n%s" % (ncfg, expect, neg["inv"], neg["out"][-1500:]))
     # spec -> code: every transition of the graph on the real nodes; code -> spec: the monitor judges the log
     files, summ = ctx.replay("ledger", graph=dot, shards=16, maxlen=24, name="ledger_%s_graph" % check, timeout=3000,
-                             limit=3000 if ctx.quick() else 0)   # quick: a seeded sample of the tour's behaviours
+                             limit=2000 if ctx.quick() else 0)   # quick: a seeded sample of the tour's behaviours
     ok = ctx.validate("TraceLedger", "TraceLedger.cfg", files, what="state graph %s" % cfg, timeout=3000, consts=consts)
     ctx.cov["samples"] = summ["samples"]
     ctx.cov["exhaustive"] = not ctx.quick() or summ["behaviours"] == summ["behaviours_total"]
@@ -48,7 +35,6 @@ def run(ctx, check, exhaustive, negatives, sim, sim_quick, sim_thorough, depth):
     # wider universe (more accounts, amounts, kinds mixed, longer blocks): seeded simulation of the same model
     n = sim_quick if ctx.quick() else sim_thorough
     glob_ = ctx.tlc_simulate("MCLedger", "MCLedger_%s.cfg" % sim, num=n, depth=depth, prefix="led_" + check)
-    _strip_locations(glob_)
     files, summ2 = ctx.replay("ledger", sim=glob_, shards=16, name="ledger_%s_sim" % check, timeout=3000)
     ok2 = ctx.validate("TraceLedger", "TraceLedger.cfg", files, what="simulated behaviours %s" % sim, timeout=3000, consts=consts)
     ctx.extra["simulation"] = dict(cfg=sim, behaviours=summ2["behaviours"], real_blocks_mined=summ2["steps"], accepted=ok2,
